@@ -217,6 +217,11 @@ class Run:
             return 1
         if bounded_bad:
             # a bounded stand-in that found a counterexample is a real failing input
+            for b in bounded_bad:
+                replay_dir.mkdir(exist_ok=True, parents=True)
+                path = replay_dir / f"{self.prop}_bounded_{re.sub(r'[^A-Za-z0-9_.-]+', '_', b['name'])[:80]}.json"
+                path.write_text(json.dumps({"property": self.prop, "bounded_standin": b}, indent=1, default=str))
+                print(f"VIOLATION property={self.prop} replay={path} obligation=bounded:{b['name'][:80]} :: {b['detail'][:300]}")
             return 1
         if n_ob == 0:
             print(f"[{self.prop}] UNDECIDED: zero obligations generated (vacuity guard)")
